@@ -15,16 +15,21 @@ import time
 from collections import Counter
 
 from . import targets
-from .c18 import snapshot
+from .snap import snapshot
 from .loop import new_loop
 
 WATCHDOG = 60.0
+_SERIAL = 0
 PROBES = {"num-running": "num_running", "is-locked": "is_locked", "num-ended": "num_ended", "pool-size": "pool_size", "is-full": "is_full",
           "num-cancelled": "num_cancelled"}
 
 
 class Inconclusive(Exception):
     pass
+
+
+class FrozenLoop(KeyboardInterrupt):
+    """Raised by the SIGALRM watchdog into whatever code is spinning without ever yielding to the event loop."""
 
 
 class Client:
@@ -74,6 +79,9 @@ def gen_scenario(rng):
         if rng.random() < 0.8:
             acts.append(("disc", c, rng.choice(["close", "close", "eof", "abort"])))
         per.append(acts)
+    if rng.random() < 0.3:
+        per.append([("blank", n, rng.choice(["\n", "  \n", "\r\n", ""]), rng.choice(["close", "eof"]))])
+        n += 1
     # merge preserving per-client order
     order = []
     idx = [0] * n
@@ -123,13 +131,40 @@ class World:
         loop.set_exception_handler(lambda lp, ctx: self.loop_errors.append(str(ctx.get("message")) + " " + repr(ctx.get("exception"))))
         self.tmp = tempfile.mkdtemp(prefix="vfc19_")
         targets.reset()
+        import signal
+
+        last = {"handles": -1, "strikes": 0}
+
+        def on_alarm(signum, frame):
+            # logical progress check: the loop's handle counter must advance; a handler that spins without yielding
+            # (e.g. on a reader at EOF) stops it.  Two strikes of 4 s each, then interrupt the spinning code.
+            if loop.vf_in_handle and loop.vf_handle_no == last["handles"]:
+                # still inside the very same handle as 4 s ago (an idle loop waiting in select() is not inside a handle)
+                last["strikes"] += 1
+                if last["strikes"] >= 2:
+                    raise FrozenLoop()
+            else:
+                last["strikes"] = 0
+            last["handles"] = loop.vf_handle_no
+
+        old = signal.signal(signal.SIGALRM, on_alarm)
+        signal.setitimer(signal.ITIMER_REAL, 4.0, 4.0)
         try:
             with asyncio.Runner(loop_factory=lambda: loop) as runner:
                 try:
                     runner.run(self._main())
                 except Inconclusive as e:
                     self.inconclusive = str(e)
+                except FrozenLoop:
+                    self.violate("C19.concurrent", "the event loop stopped making progress for 8 s: code run by the server is spinning without yielding, "
+                                                   "so no client is served and the server cannot be stopped")
+                finally:
+                    signal.setitimer(signal.ITIMER_REAL, 0)
+        except FrozenLoop:
+            self.violate("C19.concurrent", "the event loop stopped making progress (during shutdown of the run)")
         finally:
+            signal.setitimer(signal.ITIMER_REAL, 0)
+            signal.signal(signal.SIGALRM, old)
             shutil.rmtree(self.tmp, ignore_errors=True)
         return {"viol": self.viol, "sit": dict(self.sit), "inconclusive": self.inconclusive}
 
@@ -294,7 +329,10 @@ class World:
         """Create the pool and the real control server, await serve_forever(); -> (server, serving task) or None."""
         P, S = self.mods.pool, self.mods.server
         sc = self.sc
-        self.pool = P.TaskPool(name="served") if sc["cls"] == "T" else P.SimpleTaskPool(targets.work, name="served")
+        global _SERIAL
+        _SERIAL += 1
+        pname = f"served-{os.getpid()}-{_SERIAL}"  # unique, so that a foreign server on a recycled port can be told apart
+        self.pool = P.TaskPool(name=pname) if sc["cls"] == "T" else P.SimpleTaskPool(targets.work, name=pname)
         if sc["transport"] == "tcp":
             probe = socket.socket()
             probe.bind(("127.0.0.1", 0))
@@ -318,7 +356,14 @@ class World:
             start.cancel()
             return None
         if start.exception() is not None:
-            self.violate(clause, f"serve_forever() raised {start.exception()!r}")
+            e = start.exception()
+            import errno
+
+            if isinstance(e, OSError) and e.errno == errno.EADDRINUSE and sc["transport"] == "tcp" and getattr(self, "_bind_retries", 0) < 5:
+                # another process took the probed port in the meantime (parallel checks): harness race, try again
+                self._bind_retries = getattr(self, "_bind_retries", 0) + 1
+                return await self.start_server(clause)
+            self.violate(clause, f"serve_forever() raised {e!r}")
             return None
         task = start.result()
         self.serving_task = task if isinstance(task, asyncio.Task) else None
@@ -365,6 +410,19 @@ class World:
                 continue
             if kind == "open":
                 await self.connect(c, hello=False)
+                continue
+            if kind == "blank":
+                # e.g. a port probe: connects, sends a blank line (or nothing), leaves without ever shaking hands
+                before = snapshot(self.pool)
+                cl = await self.connect(c, hello=False)
+                if cl is not None and cl.writer is not None:
+                    if act[2]:
+                        cl.writer.write(act[2].encode())
+                    await self.settle()
+                    await self.disconnect(cl, act[3])
+                    self.sit["C19.blank_probe_clients"] += 1
+                if snapshot(self.pool) != before:
+                    self.violate("C19.disconnect_harmless", "a client that left without a handshake changed the pool")
                 continue
             if kind == "hello":
                 cl = self.clients.get(c)
@@ -438,8 +496,17 @@ class World:
         except (ConnectionError, FileNotFoundError, OSError):
             self.sit["C19.connect_after_stop_refused"] += 1
         else:
+            # something listens there: is it our (stopped) server, or a foreign process that got the recycled port?
+            w.write(json.dumps({"terminal_width": 80}).encode() + b"\n")
+            try:
+                got = await asyncio.wait_for(r.readline(), 5)
+            except (asyncio.TimeoutError, ConnectionError, OSError):
+                got = b""
             w.close()
-            self.violate("C19.closed_after", "the address still accepts connections after the serving task completed")
+            if got.strip() == str(self.pool).encode() or sc["transport"] == "unix":
+                self.violate("C19.closed_after", "the address still accepts connections after the serving task completed")
+            else:
+                self.sit["C19.port_recycled_by_other_process"] += 1
         for cl in self.clients.values():
             if cl.pump is not None:
                 cl.pump.cancel()
